@@ -627,13 +627,15 @@ class DictDeserializer:
                 field_typ = self.get_type(field["type"])
                 dt.add_field(name, field_typ, offset)
         elif kind == "pointer":
-            ptype = self.get_type(t["pointed_type"])
-            dt = DebugPointerType(ptype)
+            # Register first (with a placeholder), the pointed type may
+            # refer back to this pointer (recursive types):
+            dt = DebugPointerType(DebugType())
             self.types[idx] = dt
+            dt.pointed_type = self.get_type(t["pointed_type"])
         elif kind == "array":
-            etype = self.get_type(t["element_type"])
-            dt = DebugArrayType(etype, t["size"])
+            dt = DebugArrayType(DebugType(), t["size"])
             self.types[idx] = dt
+            dt.element_type = self.get_type(t["element_type"])
         else:  # pragma: no cover
             raise NotImplementedError(kind)
         return self.types[idx]
